@@ -306,6 +306,24 @@ def conclude(a, cfg, tier, seed, results, native, t0):
                 v["replayed"] = bool(nat.get("violated"))
             except Exception as e:
                 v["native"] = {"crash": str(e)}
+        if (c is not None and (c.model_to_inputs is None or c.native is None) and v.get("model") and v["replayed"] is None
+                and c.id in baseline.get("rt_safe", [])):
+            # no hand-written replay driver: run-time contract checking of the real function on the model's arguments
+            try:
+                from pyvc import rtreplay
+                case = rtreplay.build_case(c, v["model"])
+                if case is not None:
+                    nat = run_native(["replay", "rt", json.dumps(case), "replay"])
+                    if nat.get("violated"):
+                        # confirm-only: a clause that is false on the real code is a failing input; a replay that passes says
+                        # nothing here (the model may rest on the abstract reading of an uninterpreted function)
+                        v["inputs"] = {"runtime_contract_check": case["contract"], "args": nat.get("args"),
+                                       "exact_model": nat.get("exact_model_replayed")}
+                        v["native"] = nat
+                        v["native_fn"] = ["rt", "replay"]
+                        v["replayed"] = True
+            except Exception as e:
+                v["native"] = {"crash": str(e)}
         if v["replayed"]:
             confirmed.append(v)
         elif c is not None and getattr(c, "observable_only", False) and v["replayed"] is False:
@@ -472,7 +490,21 @@ def conclude(a, cfg, tier, seed, results, native, t0):
 
     if a.update_baseline:
         allb = load_baseline()
-        allb[prop] = {"prove": sorted(produced["prove"])}
+        # contracts whose clauses can be checked at run time on generated inputs (ghost-free, plain data) AND hold there on the
+        # reference tree: only these are used for run-time-contract replays (a contract whose `requires` is weaker than the
+        # domain its stubs assume - e.g. "the directory is absolute and normalised" - fails this test and is left out)
+        rt_safe = []
+        from pyvc import rtreplay
+        for cid in cfg["contracts"]:
+            c_ = reg.by_id.get(cid)
+            case = rtreplay.build_case(c_, None, family_only=True) if c_ is not None and c_.model_to_inputs is None else None
+            if case is None:
+                continue
+            case["family"] = 300
+            nat = run_native(["replay", "rt", json.dumps(case), "replay"], wall=300)
+            if not nat.get("violated") and not nat.get("crash") and not nat.get("hang") and int(nat.get("family_inputs_tried") or 0) >= 20:
+                rt_safe.append(cid)
+        allb[prop] = {"prove": sorted(produced["prove"]), "rt_safe": sorted(rt_safe)}
         os.makedirs(os.path.join(VERIF, "baseline"), exist_ok=True)
         json.dump(allb, open(os.path.join(VERIF, "baseline", "obligations.json"), "w"), indent=1, sort_keys=True)
         print("baseline updated: %d proof obligations" % len(produced["prove"]))
